@@ -398,8 +398,10 @@ class ResNetwork(GeoNetwork):
 
         """
         # a sparse matrix for the admittance values
+        #  the Laplacian's zero mode is only zero up to rounding: cut it off
+        #  well above machine precision, or it is inverted for N > 25
         self.sparse_R = sparse.lil_matrix(
-            np.linalg.pinv(self.admittance_lapacian()))
+            np.linalg.pinv(self.admittance_lapacian(), rcond=1e-10))
 
     def get_R(self):
         """Return the pseudo inverse of of the admittance Laplacian
